@@ -1,2 +1,166 @@
-(* Properties/C01.v — property theorems only. (stub) *)
+(* Properties/C01.v — FASTA records survive write -> read unchanged, however the
+   lines are wrapped.  Theorems only; proofs are in Proofs/FastaProofs{,B,C}.v.
+
+   Model/Fasta.v : [write_calls]/[write]/[marshal_text] (Fasta.Write, MarshalText),
+                   [read_one]/[decode] (reader.read, reader.iter = Reader).
+   Spec/FastaSpec.v : [fa_ok] (the domain), [Layout rs L] ("L is a layout of rs":
+                   per record '>' name sep chunk sep chunk ... sep, chunks non-empty
+                   and free of CR/LF/'>', every sep a non-empty string over CR/LF,
+                   the very last sep optional), [write_nl], [cut], [render]. *)
+From Coq Require Import String.
 From Bio Require Import Base.
+From Bio.Model Require Import Fasta.
+From Bio.Spec Require Import FastaSpec.
+From Bio.Proofs Require Import FastaProofs FastaProofsB FastaProofsC.
+
+(* ---- the writer ------------------------------------------------------------ *)
+
+(* MarshalText's length self-check never fires, for every name and sequence
+   length, and MarshalText returns exactly the bytes Write writes. *)
+Theorem C01_marshal_total : forall r, marshal_text r = Ok (write r).
+Proof. exact marshal_total. Qed.
+Print Assumptions C01_marshal_total.
+
+(* Write, call by call: '>' name LF, then the sequence in lines of 1..80 bytes
+   each followed by LF, all but the last of exactly 80 bytes, ceil(len/80) lines
+   (so no line at all for an empty sequence), concatenating to the sequence. *)
+Theorem C01_write_shape : forall r,
+  exists cs,
+    write_calls r = (GT :: name r ++ [LF]) :: map (fun c => c ++ [LF]) cs
+    /\ concat cs = seq r
+    /\ Forall (fun c => (1 <= length c <= 80)%nat) cs
+    /\ Forall (fun c => length c = 80%nat) (removelast cs)
+    /\ length cs = ((length (seq r) + 79) / 80)%nat.
+Proof. exact write_shape. Qed.
+Print Assumptions C01_write_shape.
+
+(* ---- the reader: any layout of a record list decodes to that list ----------- *)
+
+Theorem C01_layout_roundtrip : forall rs L,
+  Forall fa_ok rs -> Layout rs L -> decode L TEOF = map Rec rs.
+Proof. exact layout_roundtrip_ok. Qed.
+Print Assumptions C01_layout_roundtrip.
+
+(* (the domain hypothesis above is implied by [Layout]: a layout exists only
+   for records of the domain) *)
+Theorem C01_layout_in_domain : forall rs L, Layout rs L -> Forall fa_ok rs.
+Proof. exact layout_ok. Qed.
+Print Assumptions C01_layout_in_domain.
+
+(* the iteration's fuel [length input + 1] is enough for every input and both
+   terminal conditions: more fuel never changes the result *)
+Theorem C01_decode_fuel_sufficient : forall inp t f,
+  (length inp < f)%nat -> decode_fuel f inp t = decode inp t.
+Proof. exact decode_fuel_sufficient. Qed.
+Print Assumptions C01_decode_fuel_sufficient.
+
+(* ---- writer output is a layout, hence round-trips ---------------------------- *)
+
+Theorem C01_writer_is_layout : forall rs,
+  Forall fa_ok rs -> Layout rs (concat (map write rs)).
+Proof. exact writer_is_layout. Qed.
+Print Assumptions C01_writer_is_layout.
+
+Theorem C01_write_read_roundtrip : forall rs,
+  Forall fa_ok rs -> decode (concat (map write rs)) TEOF = map Rec rs.
+Proof. exact write_read_roundtrip. Qed.
+Print Assumptions C01_write_read_roundtrip.
+
+(* ---- layout variants as corollaries -------------------------------------------- *)
+
+(* any non-empty string of CR/LF in place of the writer's LF (CRLF, lone CR,
+   LF LF = a blank line after every line, ...) *)
+Theorem C01_nl_variant_roundtrip : forall nl rs,
+  sep nl -> Forall fa_ok rs -> decode (concat (map (write_nl nl) rs)) TEOF = map Rec rs.
+Proof. exact nl_variant_roundtrip. Qed.
+Print Assumptions C01_nl_variant_roundtrip.
+
+Theorem C01_crlf_roundtrip : forall rs,
+  Forall fa_ok rs -> decode (concat (map (write_nl [CR; LF]) rs)) TEOF = map Rec rs.
+Proof. exact crlf_roundtrip. Qed.
+Print Assumptions C01_crlf_roundtrip.
+
+(* re-wrapping every record at its own arbitrary line widths, with its own separator *)
+Theorem C01_rewrap_roundtrip : forall (nl : fasta -> bytes) (ws : fasta -> list nat) rs,
+  Forall fa_ok rs -> Forall (fun r => sep (nl r)) rs ->
+  decode (concat (map (fun r => render (nl r) (ws r) r) rs)) TEOF = map Rec rs.
+Proof. exact rewrap_roundtrip. Qed.
+Print Assumptions C01_rewrap_roundtrip.
+
+(* line breaks at the end of a non-empty file are ignored (any file, not only layouts) *)
+Theorem C01_trailing_newlines_ignored : forall L s,
+  L <> [] -> Forall (fun b => is_nl b = true) s -> decode (L ++ s) TEOF = decode L TEOF.
+Proof. exact trailing_newlines_ignored. Qed.
+Print Assumptions C01_trailing_newlines_ignored.
+
+(* the writer's output without its final newline *)
+Theorem C01_no_final_newline : forall rs,
+  Forall fa_ok rs -> rs <> [] ->
+  decode (removelast (concat (map write rs))) TEOF = map Rec rs.
+Proof. exact no_final_newline. Qed.
+Print Assumptions C01_no_final_newline.
+
+(* ---- the hypotheses are satisfiable: concrete, non-trivial values -------------- *)
+
+Definition ex_r1 : fasta := {| name := bs ">a b"; seq := bs "ACGT" |}.   (* '>' in the name *)
+Definition ex_r2 : fasta := {| name := []; seq := [] |}.
+Definition ex_r3 : fasta := {| name := bs "x"; seq := bs "TT" |}.
+Definition ex_rs := [ex_r1; ex_r2; ex_r3].
+(* ">>a b" CRLF "AC" LF LF "GT" LF ">" LF ">x" LF "T" CR "T"   (no final newline) *)
+Definition ex_t1 : bytes := GT :: bs ">a b" ++ [CR; LF] ++ bs "AC" ++ [LF; LF] ++ bs "GT" ++ [LF].
+Definition ex_t2 : bytes := [GT; LF].
+Definition ex_t3 : bytes := GT :: bs "x" ++ [LF] ++ bs "T" ++ [CR] ++ bs "T".
+Definition ex_L : bytes := ex_t1 ++ ex_t2 ++ ex_t3.
+
+Example C01_ex_domain : Forall fa_ok ex_rs.
+Proof. repeat constructor. Qed.
+
+Example C01_ex_layout : Layout ex_rs ex_L.
+Proof.
+  assert (S1 : sep [LF]) by (split; [discriminate | repeat constructor]).
+  assert (S2 : sep [LF; LF]) by (split; [discriminate | repeat constructor]).
+  assert (S3 : sep [CR; LF]) by (split; [discriminate | repeat constructor]).
+  assert (S4 : sep [CR]) by (split; [discriminate | repeat constructor]).
+  assert (C1 : chunk (bs "AC")) by (split; [discriminate | repeat constructor]).
+  assert (C2 : chunk (bs "GT")) by (split; [discriminate | repeat constructor]).
+  assert (C3 : chunk (bs "T")) by (split; [discriminate | repeat constructor]).
+  apply (L_cons ex_r1 ex_t1 [ex_r2; ex_r3] (ex_t2 ++ ex_t3)); [|discriminate|].
+  - apply (R_intro false ex_r1 [CR; LF] (bs "AC" ++ [LF; LF] ++ bs "GT" ++ [LF])).
+    + repeat constructor.
+    + exact S3.
+    + apply (B_cons false (bs "AC") [LF; LF] (bs "GT") (bs "GT" ++ [LF])); [exact C1 | exact S2 |].
+      apply (B_cons false (bs "GT") [LF] [] []); [exact C2 | exact S1 | apply B_nil].
+  - apply (L_cons ex_r2 ex_t2 [ex_r3] ex_t3); [|discriminate|].
+    + apply (R_intro false ex_r2 [LF] []); [constructor | exact S1 | apply B_nil].
+    + apply L_last.
+      apply (R_intro true ex_r3 [LF] (bs "T" ++ [CR] ++ bs "T")).
+      * repeat constructor.
+      * exact S1.
+      * apply (B_cons true (bs "T") [CR] (bs "T") (bs "T")); [exact C3 | exact S4 |].
+        apply B_last. exact C3.
+Qed.
+
+(* the model run on it, independently of the theorem *)
+Example C01_ex_decode : decode ex_L TEOF = map Rec ex_rs.
+Proof. vm_compute. reflexivity. Qed.
+
+(* a 161-byte sequence: lines of 80, 80 and 1 bytes; MarshalText does not panic *)
+Definition ex_long : fasta := {| name := bs "long"; seq := repeat 65 161 |}.
+Example C01_ex_write_lines : map (@length byte) (write_calls ex_long) = [6; 81; 81; 2]%nat.
+Proof. vm_compute. reflexivity. Qed.
+Example C01_ex_marshal : marshal_text ex_long = Ok (write ex_long)
+                         /\ decode (write ex_long) TEOF = [Rec ex_long]
+                         /\ decode (removelast (write ex_long)) TEOF = [Rec ex_long]
+                         /\ decode (write_nl [CR; LF] ex_long) TEOF = [Rec ex_long]
+                         /\ decode (render [LF; CR] [6; 0; 99]%nat ex_long) TEOF = [Rec ex_long].
+Proof. vm_compute. repeat split; reflexivity. Qed.
+
+(* Outside the spec's layouts (DESIGN.md section 1): line breaks before the first
+   '>' make the reader produce an extra empty record; and a failing stream loses
+   the record in progress and ends with an error item. *)
+Example C01_ex_blank_lines_first :
+  decode ([LF; LF] ++ bs ">a" ++ [LF] ++ bs "AC" ++ [LF]) TEOF
+  = [Rec {| name := []; seq := [] |}; Rec {| name := bs "a"; seq := bs "AC" |}].
+Proof. vm_compute. reflexivity. Qed.
+Example C01_ex_failing_stream : decode ex_L TErr = [Rec ex_r1; Rec ex_r2; ErrItem].
+Proof. vm_compute. reflexivity. Qed.
